@@ -11,7 +11,8 @@ _cache = {}
 
 
 def ensure_tool():
-    if os.path.exists(TOOL):
+    src = os.path.join(VERIF, "tools", "refacts", "src", "main.rs")
+    if os.path.exists(TOOL) and os.path.getmtime(TOOL) >= os.path.getmtime(src):
         return
     env = dict(os.environ)
     env["CARGO_NET_OFFLINE"] = "true"
@@ -57,3 +58,15 @@ def matches(pattern, texts):
             raise RuntimeError("refacts match mode: %s" % d)
         out.extend(d["m"])
     return out
+
+
+def captures1(pattern, texts):
+    """group 1 of the first match of the program's regex literal on each text (None when there is no match)"""
+    ensure_tool()
+    texts = list(texts)
+    line = "C\t" + json.dumps(pattern) + "".join("\t" + json.dumps(t) for t in texts) + "\n"
+    r = subprocess.run([TOOL], input=line, capture_output=True, text=True)
+    d = json.loads(r.stdout.splitlines()[0])
+    if "c" not in d:
+        raise RuntimeError("refacts capture mode: %s" % d)
+    return d["c"]
